@@ -8,7 +8,7 @@ import random
 
 TYPE_ORDER = {"internal": 0, "sequence_control": 1, "ks": 2, "ts": 3, "cc": 4, "pc": 5, "off": 6, "on": 7}
 KEYS = ["C", "G", "D", "A", "E", "B", "F#", "C#", "F", "Bb", "Eb", "Ab", "Db", "Gb", "Cb"]
-SIGS = [(2, 4), (3, 4), (4, 4), (5, 4), (6, 8), (2, 2), (7, 8), (12, 8), (3, 8), (9, 8)]
+SIGS = [(2, 4), (3, 4), (4, 4), (5, 4), (6, 8), (2, 2), (7, 8), (12, 8), (3, 8), (9, 8), (8, 8)]   # 8/8 is the library default
 DEFAULT_NOTE_VALUES = [24, 12, 6, 16, 8, 4, 36, 18, 9]
 DEFAULT_STEPS_TOK = [2, 3, 4, 6, 8, 12, 16, 24]
 
@@ -161,7 +161,13 @@ def build_seq(spec):
     if start == "rel":
         return Sequence(relative_sequence=RelativeSequence(rel_messages(spec)))
     s = Sequence()
-    for m in abs_messages(spec):
+    msgs = abs_messages(spec)
+    if start == "abs_shuffled":
+        # the same events handed to add_absolute_message in a shuffled order: the stored list is time-ordered, equal ticks keep
+        # their insertion order (e.g. the note-on of a note before the note-off of the note it follows)
+        import random
+        random.Random(spec.get("shuffle_seed", 0)).shuffle(msgs)
+    for m in msgs:
         s.add_absolute_message(m)
     pad = spec.get("pad")
     if pad:
